@@ -266,6 +266,24 @@ func emitEmit(cw *caseWriter, prop string, to []colDesc, mk func() interface{}, 
 	return out
 }
 
+// emitText: the JSON text handed straight to Exporter.Export (string or []byte input): the row is
+// re-created from the text under the rendering template itself.
+func emitText(cw *caseWriter, prop string, to []colDesc, line []byte, asBytes bool) string {
+	w := &recWriter{failAt: -1}
+	var err error
+	var v interface{} = string(line)
+	if asBytes {
+		v = append([]byte{}, line...)
+	}
+	ext := map[string]string{}
+	extForJSON(line, ext)
+	pan := guard(func() { err = buildTemplate(to).GetExporter(w).Export(v) })
+	out := lineOutcome(w, err, pan)
+	cw.count("emit-text:" + strings.SplitN(out, " ", 2)[0])
+	cw.emit(prop+" emit-text "+descStr(to)+" | "+string(line), true, "emit", prop, descStr(to), dynStr(v), extStr(ext), out)
+	return out
+}
+
 // ---- generators ---------------------------------------------------------------------------
 
 var weirdKeys = []string{"a", "b", "zz", "aa", "", " ", "a b", "a.b", "\"", "\\", "/", "<k>", "&", "\x00", "\x01", "\x07", "\x0b", "\x1f", "\n", "\t", "\r", "\x7f",
@@ -636,6 +654,9 @@ func genC03(cw *caseWriter, seed uint64, tier string) {
 			}
 			parts = append(parts, `"x":{"y":1,"a":2}`)
 			emitLine(cw, "C03", cols, cols, []byte("{"+strings.Join(parts, ",")+"}"), true)
+			if r.chance(1, 4) {
+				emitText(cw, "C03", cols, []byte("{"+strings.Join(parts, ",")+"}"), r.chance(1, 2))
+			}
 		}
 	}
 	cw.extra["exhaustive_permutations_up_to"] = maxk
@@ -651,6 +672,9 @@ func genC03(cw *caseWriter, seed uint64, tier string) {
 		}
 		line := []byte(orderObject(r, ti, true))
 		emitLine(cw, "C03", ti, to, line, true)
+		if r.chance(1, 3) {
+			emitText(cw, "C03", to, line, r.chance(1, 2))
+		}
 	}
 }
 
@@ -679,6 +703,9 @@ func genC04(cw *caseWriter, seed uint64, tier string) {
 						line = `{"c":` + txt + `,"p":{"zz":` + txt + `,"aa":1}}`
 					}
 					emitLine(cw, "C04", ti, tt, []byte(line), true)
+					if r.chance(1, 4) {
+						emitText(cw, "C04", tt, []byte(line), r.chance(1, 2))
+					}
 				}
 			}
 		}
@@ -708,6 +735,53 @@ func emitRoundTrip(cw *caseWriter, line []byte, inDomain bool) {
 	}
 	cw.count("rtrip:" + strings.SplitN(first, " ", 2)[0] + ":dom" + dom)
 	cw.emit("rtrip "+string(line), inDomain, "rtrip", "C02", hxs(string(line)), dom, extStr(ext), first, second)
+}
+
+// emitRoundTripBatch: several lines through ONE untemplated importer/exporter pair (what jl does with a
+// file); each line's outcome is reported as an `rtrip` case of its own, so a line must come out as it does
+// alone whatever preceded it.
+func emitRoundTripBatch(cw *caseWriter, lines [][]byte) {
+	stream := func(ls [][]byte) (*recWriter, int, string) {
+		var in bytes.Buffer
+		for _, l := range ls {
+			in.Write(l)
+			in.WriteByte('\n')
+		}
+		w := &recWriter{failAt: -1}
+		nerr := 0
+		pan := guard(func() {
+			_ = jsonline.NewStreamer(jsonline.NewImporter(&in), jsonline.NewExporter(w)).WithProcessor(func(_ jsonline.Row, err error) error {
+				if err != nil {
+					nerr++
+				}
+				return nil
+			}).Stream()
+		})
+		return w, nerr, pan
+	}
+	w, nerr, pan := stream(lines)
+	if pan != "" || nerr != 0 || len(w.writes) != len(lines) {
+		cw.count("rtrip:batch-broken")
+		cw.emit("rtrip batch "+string(lines[0]), true, "rtrip", "C02", hxs(string(lines[0])), "1", "-",
+			fmt.Sprintf("err syntax w=%d %s", len(w.writes), hxs(string(w.all()))), "-")
+		return
+	}
+	outs := make([][]byte, len(lines))
+	for i, x := range w.writes {
+		outs[i] = bytes.TrimSuffix(x, []byte("\n"))
+	}
+	w2, nerr2, pan2 := stream(outs)
+	for i, l := range lines {
+		second := "-"
+		if pan2 == "" && nerr2 == 0 && len(w2.writes) == len(lines) {
+			second = fmt.Sprintf("ok %s w=1", hxs(string(w2.writes[i])))
+		} else {
+			second = fmt.Sprintf("err syntax w=%d -", len(w2.writes))
+		}
+		cw.count("rtrip:batched")
+		cw.emit(fmt.Sprintf("rtrip batch[%d] %s", i, l), true, "rtrip", "C02", hxs(string(l)), "1", "-",
+			fmt.Sprintf("ok %s w=1", hxs(string(w.writes[i]))), second)
+	}
 }
 
 type jgen struct {
@@ -796,6 +870,17 @@ func genC02(cw *caseWriter, seed uint64, tier string) {
 	}
 	for i := 0; i < n; i++ {
 		emitRoundTrip(cw, []byte(g.ws()+g.object(0)+g.ws()), true)
+	}
+	// the same kind of lines in batches of 2-6 through one importer/exporter pair
+	for i := 0; i < n/10; i++ {
+		var batch [][]byte
+		for k := 2 + r.intn(5); k > 0; k-- {
+			batch = append(batch, []byte(g.ws()+g.object(0)+g.ws()))
+		}
+		if r.chance(1, 3) { // a line sharing keys with its predecessor in another order
+			batch = append(batch, []byte(`{"b":2,"a":{"y":[],"x":{}}}`), []byte(`{"a":1,"c":[{}],"b":[]}`))
+		}
+		emitRoundTripBatch(cw, batch)
 	}
 }
 
